@@ -264,7 +264,7 @@ def out_events(state: State, rename=True):
             k: v
             for k, v in e.items()
             if k not in ("uid", "event_created_at", "source_uid", "action_info_modality",
-                         "action_info_modality_policy")
+                         "action_info_modality_policy", "action_finished_at", "action_started_at", "action_updated_at")
         }
         res.append(d)
     return res
